@@ -269,3 +269,23 @@ package core
 //@   stable s.invokeManager, s.ioManager
 //@   ensures [nothing_installed] ghost.pm_use_calls[ival(s.invokeManager)] == old(ghost.pm_use_calls[ival(s.invokeManager)]) &&
 //@       ghost.pm_use_calls[ival(s.ioManager)] == old(ghost.pm_use_calls[ival(s.ioManager)])
+
+// ---- the service entry point the transports hand requests to ---------------
+//
+// C13: a transport may call Handle only with a request whose length is within
+// the configured limit. ghost.handled counts calls, ghost.handled_req is the
+// request slice of the last one, ghost.handle_resp/handle_err what it returned.
+//@ ghost handled int
+//@ ghost handled_req []byte
+//@ ghost handle_resp []byte
+//@ ghost handle_err error
+//@ ghost npanic_handle int
+//@ modset HANDLE = ghost.handled, ghost.handled_req, ghost.handle_resp, ghost.handle_err, ghost.npanic_handle
+
+//@ func (*Service).Handle
+//@   havoc
+//@   modifies @HANDLE
+//@   requires [request_within_limit] s != nil && len(request) <= s.MaxRequestLength
+//@   ensures ghost.handled == old(ghost.handled) + 1 && same(ghost.handled_req, request)
+//@   ensures same(result0, ghost.handle_resp) && same(result1, ghost.handle_err) && ghost.npanic_handle == old(ghost.npanic_handle)
+//@   ensures_panic ghost.handled == old(ghost.handled) + 1 && same(ghost.handled_req, request) && ghost.npanic_handle == old(ghost.npanic_handle) + 1
